@@ -609,6 +609,11 @@ fn unwrap_transparent<'a>(t: &'a Ty, v: &'a DV) -> (&'a Ty, &'a DV) {
     }
 }
 fn is_composite(t: &Ty, v: &DV) -> bool {
+    // the emitter writes every key that is not a bare scalar with the explicit `? ` form,
+    // including `Some(scalar)` and newtype-struct keys
+    if matches!(t, Ty::Opt(_) | Ty::NT(_)) && !matches!(v, DV::None) {
+        return true;
+    }
     let (t, v) = unwrap_transparent(t, v);
     match (t, v) {
         (Ty::Seq(_), _) | (Ty::Tuple(_), _) | (Ty::TS(_), _) | (Ty::Map(..), _) | (Ty::Struct(..), _) => true,
@@ -647,7 +652,8 @@ pub fn sig_complex_key_block_body(t: &Ty, v: &DV) -> bool {
         if pos == "map-key" && is_composite(kt, kv) {
             walk(kt, kv, "root", &mut |t2, v2, _| {
                 if let (Ty::Enum(vks), DV::Var(i, _)) = (t2, v2) {
-                    if matches!(vks[*i], VK::St(_)) {
+                    // struct variants, and newtype variants (whose payload may be a block mapping)
+                    if matches!(vks[*i], VK::St(_) | VK::New(_)) {
                         hit = true;
                     }
                 }
@@ -694,4 +700,29 @@ pub fn sig_has_composite_key(t: &Ty, v: &DV) -> bool {
         }
     });
     hit
+}
+
+/// does the subtree contain an enum variant that carries a payload?
+pub fn contains_payload_variant(t: &Ty, v: &DV) -> bool {
+    let mut hit = false;
+    walk(t, v, "root", &mut |t2, v2, _| {
+        if let (Ty::Enum(vks), DV::Var(i, _)) = (t2, v2) {
+            if !matches!(vks[*i], VK::Unit) {
+                hit = true;
+            }
+        }
+    });
+    hit
+}
+/// the (type, value) at pre-order index `at`
+pub fn node_at<'a>(t: &'a Ty, v: &'a DV, at: usize) -> Option<(&'a Ty, &'a DV)> {
+    let mut idx = 0;
+    let mut out = None;
+    walk(t, v, "root", &mut |t2, v2, _| {
+        if idx == at {
+            out = Some((t2, v2));
+        }
+        idx += 1;
+    });
+    out
 }
